@@ -5,7 +5,7 @@ Runtime monitoring, three parts.
 K  keyword sweep (exhaustive).  Candidate words = the keyword table of the *live*
    libsqlite3 (``sqlite3_keyword_name`` via ctypes) + every ``reserved_words`` set of the
    dialects in the live tree.  Each word is probed against the live SQLite parser in the
-   eleven syntactic positions in which SQLAlchemy renders ``preparer.quote(name)``
+   35 syntactic positions in which SQLAlchemy renders ``preparer.quote(name)``
    (``vf.gen.names_ge.PROBES``); a word the parser rejects bare must be quoted by the
    SQLite preparer, and - the deciding oracle - a full create / insert / select / update /
    reflect / drop round trip that uses the word as table, column, index, constraint,
@@ -55,7 +55,7 @@ META = {
     "id": "C06",
     "level": "exploration",
     "technique": "executed create/insert/select/reflect/drop round trips on SQLite with a live-parser keyword probe and raw-catalog observer; per-dialect format/unformat + independent quoted-identifier lexer",
-    "level_text": "Exhaustive over every keyword of the linked SQLite (C API keyword table) and every reserved word of all bundled dialects, each probed in 11 syntactic positions and executed in 7 naming roles; seeded random names (quote/escape/placeholder heavy) executed on SQLite and formatted on 9 dialect+driver pairs.",
+    "level_text": "Exhaustive over every keyword of the linked SQLite (C API keyword table) and every reserved word of all bundled dialects, each probed in 35 syntactic positions and (SQLite keywords and every word the parser rejects or the preparer quotes) executed in 3 role sets covering table, column, index, constraint, schema, label and alias names; seeded random names (quote/escape/placeholder heavy) executed on SQLite and formatted on 9 dialect+driver pairs.",
     "level_note": "Only SQLite executes. PostgreSQL/MySQL/MariaDB/MSSQL/Oracle are judged on formatted text against a transcription of each vendor's quoted-identifier grammar, and on the recorded DBAPI stream for '%' escaping; their reserved-word lists cannot be compared with a server grammar here. Oracle '\"' and NUL/empty names are excluded as unrepresentable.",
     "design_ref": "DESIGN.md section 4, C06",
     "rule": "case = one set of names in all roles (schema, 2 tables, 3 columns, index, unique/fk/check constraint, label, alias) or one keyword in one role set or one (dialect, schema, table, column) formatting; non-trivial = at least one name needs quoting (SQLite parts) / contains a quote, dot or percent character (dialect part); distinct by the names",
